@@ -41,6 +41,9 @@ func init() {
 			{ID: "R01s", Floor: 3, Doc: "the root-module selective writer puts every dag the caller listed into the header and walks each of them (= R15m)", Run: ruleR15m},
 			{ID: "R01t", Floor: 1, Doc: "no new mutable package-level state in the library: two readers must not share a decoded header (= R13k)", Run: ruleR13k},
 			{ID: "R01u", Floor: 1, Doc: "identity blocks read back as the digest the multihash decoder yields (= R04g)", Run: ruleR04g},
+			{ID: "R01v", Floor: 1, Doc: "the index decoders accept every multihash code the encoders write: package index consults no registry of hash functions (= R11v)", Run: ruleR11v},
+			{ID: "R01w", Floor: 1, Doc: "the storage constructors keep the caller's root list itself (a copy turns nil into an empty list, which the header encodes differently): all writers emit the same header bytes for the same roots", Run: ruleR01w},
+			{ID: "R01x", Floor: 1, Doc: "a resumed store finds every block that is in the file: the rescan indexes every section it passes (= R12c)", Run: ruleR12c},
 		},
 	})
 }
